@@ -123,16 +123,16 @@ def _run(F, R, ctx):
     # ---- b (shared with C06.H)
     gv = shared.gidx_vm(F)
     jl = F.one(r"^steel::steel_vm::vm::jit::jit_compile_lambda$")
-    for fn, sb, arm, body in c06.scanners(F):
+    for fn, sb, arm, body, own in c06.scanners(F):
         if "ByteCodeLambda" not in body:
             continue
         hdr = [i for i, _, e in fn.events("fld") if e[1] == "ByteCodeLambda" and e[2] == "header"]
-        mm = lib.arm_map(fn, sb)
+        mm = lib.arm_map(own, sb)
         tramp = "DynSuperInstruction" in mm and mm["DynSuperInstruction"] != mm["_"]
         R.inst("C02.b", "%s / ignores trampoline header" % fn.short(), bool(hdr) or tramp,
                "%s matches on ByteCodeLambda.body_exp[i].op_code without consulting ByteCodeLambda.header: with the JIT on "
                "the first opcode is the trampoline, so the scanner sees a different program than with the JIT off" % fn.short(),
-               fn.loc(fn.blocks[sb]["line"]), sample=True)
+               own.loc(own.blocks[sb]["line"]), sample=True)
     # ---- d
     wr_hdr = [i for i, _, e in jl.events("fld") if e[1] == "ByteCodeLambda" and e[2] == "header" and e[3][0] == "w"]
     tramp = [i for i, _, e in jl.events("agg") if e[1] == "OpCode" and e[2] == "DynSuperInstruction"]
